@@ -639,6 +639,16 @@ def gen_case_v(rng, VENDOR):
     if fam < 0.1:
         gens = gen_exclusive_family(rng, VENDOR)
         family = "exclusive-several-rules-per-generator"
+    elif fam < 0.17:
+        # generators whose parent rules overlap on SOME rows only (one contributing %global rules): a row matched
+        # by one parent alone must see that parent's children rules only, whatever was matched before it in this
+        # process (the compiled ACL is cached per text and shared by rows, passes and devices)
+        parts, tree = aclgen.gen_acl_shared_children(rng, aclgen.VENDORS[VENDOR])
+        rows = list(tree.items())
+        for j, acl in enumerate(parts):
+            sub = dict(rows) if rng.random() < 0.5 else dict(rows[j::len(parts)] or rows[:1])
+            gens.append({"name": f"G{j}", "items": acl, "prog": prog_of_tree(rng, sub)})
+        family = "shared-children"
     elif fam < 0.5:
         # ACL-driven: structured ACLs of the shared generator, trees drawn from them
         rev = aclgen.VENDORS[VENDOR]
